@@ -28,6 +28,9 @@ pub struct Plan {
     pub fmt_text: Option<String>,
     pub lines: Vec<String>,
     pub sev: Option<&'static str>,
+    /// a second rule on the same block that can never report anything (its pattern matches no line):
+    /// the block's own rule must still be detected and run
+    pub neutral: bool,
 }
 
 const LEX: [&str; 11] = ["a", "b", "ab", " a", "a ", "", "  ", "B", "a1", "\u{a0}b", "\u{3000}ab "];
@@ -82,6 +85,19 @@ fn seq(rng: &mut Rng, alphabet: &[&str], idx: usize, tier: Tier) -> Vec<String> 
     v
 }
 
+/// The regex crate accepts two spellings of a named group, `(?P<value>..)` and `(?<value>..)`,
+/// and non-capturing or unnamed groups beside it; all of them name the same key.
+fn respell(rng: &mut Rng, pat: &str) -> String {
+    if !pat.contains("(?P<value>") {
+        return pat.to_string();
+    }
+    match rng.below(4) {
+        0 => pat.replace("(?P<value>", "(?<value>"),
+        1 => pat.replace("id=", "(?:id)(=)"),
+        _ => pat.to_string(),
+    }
+}
+
 pub fn plan(rule: Rule, rng: &mut Rng, idx: usize, tier: Tier) -> Plan {
     let sev = if rng.chance(1, 5) { Some(*rng.pick(SEVERITIES)) } else { None };
     match rule {
@@ -109,7 +125,7 @@ pub fn plan(rule: Rule, rng: &mut Rng, idx: usize, tier: Tier) -> Plan {
                 // Unicode keys: code point order
                 lines = (0..rng.range(2, 6)).map(|_| rng.pick(&UNI).to_string()).collect();
             }
-            Plan { rule, asc, dir_text: dir_text.to_string(), pat: pat.to_string(), numeric, fmt_text, lines, sev }
+            Plan { rule, asc, dir_text: dir_text.to_string(), pat: respell(rng, pat), numeric, fmt_text, lines, sev, neutral: false }
         }
         Rule::Unique => {
             let mode = idx % 3;
@@ -119,7 +135,7 @@ pub fn plan(rule: Rule, rng: &mut Rng, idx: usize, tier: Tier) -> Plan {
                 _ => (UNIQ_PLAIN_PAT, &UNIQ_PLAIN),
             };
             let lines = seq(rng, alphabet, idx / 3, tier);
-            Plan { rule, asc: true, dir_text: String::new(), pat: pat.to_string(), numeric: false, fmt_text: None, lines, sev }
+            Plan { rule, asc: true, dir_text: String::new(), pat: respell(rng, pat), numeric: false, fmt_text: None, lines, sev, neutral: rng.chance(1, 5) }
         }
         Rule::Pattern => {
             let pat = LP_PATS[idx % LP_PATS.len()];
@@ -127,7 +143,7 @@ pub fn plan(rule: Rule, rng: &mut Rng, idx: usize, tier: Tier) -> Plan {
             if rng.chance(1, 10) {
                 lines.push(rng.pick(&UNI).to_string());
             }
-            Plan { rule, asc: true, dir_text: String::new(), pat: pat.to_string(), numeric: false, fmt_text: None, lines, sev }
+            Plan { rule, asc: true, dir_text: String::new(), pat: pat.to_string(), numeric: false, fmt_text: None, lines, sev, neutral: rng.chance(1, 5) }
         }
     }
 }
@@ -147,8 +163,19 @@ pub fn attrs_of(p: &Plan, name: Option<&str>) -> Vec<(String, String)> {
                 a.push(("keep-sorted-format".into(), f.clone()));
             }
         }
-        Rule::Unique => a.push(("keep-unique".into(), p.pat.clone())),
-        Rule::Pattern => a.push(("line-pattern".into(), p.pat.clone())),
+        Rule::Unique => {
+            if p.neutral {
+                a.push(("keep-sorted".into(), "asc".into()));
+                a.push(("keep-sorted-pattern".into(), "@@never@@".into()));
+            }
+            a.push(("keep-unique".into(), p.pat.clone()));
+        }
+        Rule::Pattern => {
+            if p.neutral {
+                a.push(("keep-unique".into(), "@@never@@".into()));
+            }
+            a.push(("line-pattern".into(), p.pat.clone()));
+        }
     }
     if let Some(s) = p.sev {
         a.push(("severity".into(), s.into()));
